@@ -418,7 +418,41 @@ def _idx_name(an, k):
     return s[:40]
 
 
+def carried_facts(an, terms):
+    """facts about loop-carried locals occurring in `terms`, by induction over the loop: when every back-edge value of L is
+    min(.., L, ..) the value never rises above its entry value (L <= entry); dually for max"""
+    out = []
+    seen_l = set()
+    for t in terms:
+        for x in walk(t):
+            if x[0] != 'loopvar' or x in seen_l or x[2][0][0] != 'local':
+                continue
+            seen_l.add(x)
+            H, key = x[1], x[2]
+            if H not in an.loop_entry or not an.loop_back.get(H):
+                continue
+            ent = assume_nonneg(vec_norm(an, an.load(key, an.loop_entry[H])))
+            backs = [assume_nonneg(vec_norm(an, an.load(key, s_))) for s_ in an.loop_back[H]]
+
+            def has(t_, op):
+                if t_ == x:
+                    return True
+                if t_[0] == op:
+                    return any(has(c, op) for c in t_[1:])
+                if t_[0] == 'gamma':           # a conditional update: both arms must keep the bound
+                    return has(t_[2], op) and has(t_[3], op)
+                return False
+            if any(y[0] == 'loopvar' for y in walk(ent)):
+                continue
+            if all(has(b_, 'min') for b_ in backs):
+                out.append(mk('le', x, ent))
+            elif all(has(b_, 'max') for b_ in backs):
+                out.append(mk('ge', x, ent))
+    return out
+
+
 def oblige(ctx, R, an, seen, key, kind, got, want, facts, where, note):
+    facts = list(facts) + carried_facts(an, ([got, want] if want is not None else [got]) + list(facts))
     n = seen.get((R, key), 0)
     seen[(R, key)] = n + 1
     if n:
